@@ -1069,6 +1069,7 @@ func (w *Worker) mapUpdate(s *State, m MapRef, k, v Value) {
 	if m.id == 0 {
 		throwRT("assignment to entry in nil map")
 	}
+	s.checkGuardID(m.id, "write")
 	mo := w.mapObj(s, m)
 	i := w.findKey(s, mo, k)
 	n := &MapObj{keys: append([]Value(nil), mo.keys...), vals: append([]Value(nil), mo.vals...)}
@@ -1091,6 +1092,7 @@ func (w *Worker) lookup(s *State, f *Frame, x *ssa.Lookup) Value {
 		return BV(8, uint64(str[i]))
 	}
 	m := base.(MapRef)
+	s.checkGuardID(m.id, "read")
 	mo := w.mapObj(s, m)
 	i := w.findKey(s, mo, w.get(s, f, x.Index))
 	var v Value
@@ -1108,6 +1110,7 @@ func (w *Worker) lookup(s *State, f *Frame, x *ssa.Lookup) Value {
 func (w *Worker) mkRange(s *State, v Value) Value {
 	switch x := v.(type) {
 	case MapRef:
+		s.checkGuardID(x.id, "read")
 		mo := w.mapObj(s, x)
 		return s.alloc(&IterState{keys: mo.keys, vals: mo.vals})
 	case string:
@@ -1328,6 +1331,7 @@ func (w *Worker) builtin(s *State, f *Frame, b *ssa.Builtin, args []Value, dst s
 		case string:
 			return BV(64, uint64(len(x)))
 		case MapRef:
+			s.checkGuardID(x.id, "read")
 			return BV(64, uint64(len(w.mapObj(s, x).keys)))
 		case ChanRef:
 			if x.id == 0 {
@@ -1364,6 +1368,7 @@ func (w *Worker) builtin(s *State, f *Frame, b *ssa.Builtin, args []Value, dst s
 			return a
 		}
 		if a.len+len(src) <= a.cap {
+			s.checkGuardID(a.arr.id, "write")
 			arr := getPath(s.cell(a.arr.id), a.arr.path).(Tuple)
 			n := make(Tuple, len(arr))
 			copy(n, arr)
@@ -1407,6 +1412,7 @@ func (w *Worker) builtin(s *State, f *Frame, b *ssa.Builtin, args []Value, dst s
 			n = len(src)
 		}
 		if n > 0 {
+			s.checkGuardID(d.arr.id, "write")
 			arr := getPath(s.cell(d.arr.id), d.arr.path).(Tuple)
 			na := make(Tuple, len(arr))
 			copy(na, arr)
@@ -1419,6 +1425,7 @@ func (w *Worker) builtin(s *State, f *Frame, b *ssa.Builtin, args []Value, dst s
 		if m.id == 0 {
 			return nil
 		}
+		s.checkGuardID(m.id, "write")
 		mo := w.mapObj(s, m)
 		i := w.findKey(s, mo, args[1])
 		if i >= 0 {
